@@ -8,6 +8,7 @@ from .. import bits, fields, paths
 from ..core import FUNC, call_attr, calls_in, const, dotted, is_const, kwarg, norm, slice_parts, text, walk_local
 
 EXPLANATION = [
+    'C19.sdp-codecs: every _parse_X / _serialize_X helper pair of bumble.sdp uses the same set of struct item types (byte order, width and signedness of each item) on both sides.',
     'C19.sdp-all: match_services admits a record only under a universal test over the UUIDs of the pattern (all(... any(...)) or an equivalent for/else), never inside the per-UUID loop on the first hit.',
     'C19.sdp-client-state: the channel a reply is written to and the partial response used for continuation are selected by the channel the request arrived on.',
     'C19.sdp-budget: per-response capacities (peer_mtu - 11)//4 and peer_mtu - 9 equal header + fixed fields + continuation overhead computed from the PDU codec; the final chunk is the one that fits (len <= max) and leaves no partial response; a continuation is valid only if a partial response exists.',
@@ -260,10 +261,9 @@ def sdp_watchdog(ctx):
         R.bad(rule, 'bumble.sdp.SDP_CONTINUATION_WATCHDOG', 'anchor missing')
 
 
-def avdtp_single(ctx):
+def avdtp_single(ctx, rule='C19.avdtp-single'):
     from .. import sym
     R, p = ctx.r, ctx.p
-    rule = 'C19.avdtp-single'
     fn = p.find('bumble.avdtp.Protocol.send_message')
     if fn is None:
         R.bad(rule, 'bumble.avdtp.Protocol.send_message', 'anchor missing')
@@ -420,6 +420,39 @@ def neutral(ctx):
     bad = [f'via {" ".join(w)}' for k, st in res.items() if k == 'ret:explicit' for v, w in st.items() if v == 'dirty']
     R.check(not bad, rule, 'bumble.avdtp.MessageAssembler.on_pdu | rejecting returns are state-neutral', 'every early return leaves the assembler untouched or reset (a packet is counted only after it was accepted)',
             'a rejected packet has already changed the assembler (e.g. the packet count): the next well-formed message fails its checks', p.loc(fn), bad)
+    # a fragmented message is delivered only when exactly the announced number of packets was received: on every path that
+    # reaches on_message_complete() for an END packet, the relation known between packet_count and number_of_signal_packets is `==`
+    from ..sym import same_ineq
+
+    class Cnt(paths.Domain):
+        # value: (is END packet: True/None, relation known: 'eq' | 'other' | None)
+        def __init__(self):
+            self.bad = []
+
+        def assume(self, atom, truth, v):
+            t = norm(atom)
+            if 'END_PACKET' in t and 'packet_type' in t:
+                if isinstance(atom, ast.Compare) and isinstance(atom.ops[0], ast.Eq):
+                    return ((truth or None, v[1]),) if truth else ((v[0] if v[0] else None, v[1]),)
+                if isinstance(atom, ast.Compare) and isinstance(atom.ops[0], ast.In):
+                    return ((v[0], v[1]),)
+            if 'self.packet_count' in t and 'self.number_of_signal_packets' in t and isinstance(atom, ast.Compare) and len(atom.ops) == 1:
+                op = type(atom.ops[0])
+                eq = (op is ast.Eq and truth) or (op is ast.NotEq and not truth)
+                return ((v[0], 'eq' if eq else 'other'),)
+            return (v,)
+
+        def event(self, node, v):
+            if isinstance(node, ast.AugAssign) and dotted(node.target) == 'self.packet_count':
+                return ((v[0], None),)
+            if isinstance(node, ast.Call) and dotted(node.func) == 'self.on_message_complete' and v[0] and v[1] != 'eq':
+                self.bad.append(node.lineno)
+            return (v,)
+    cd = Cnt()
+    paths.run(fn, cd, (None, None))
+    n_end = sum(1 for c in calls_in(fn) if dotted(c.func) == 'self.on_message_complete')
+    R.check(n_end >= 2 and not cd.bad, rule, 'bumble.avdtp.MessageAssembler.on_pdu | delivery needs the announced count', 'an END packet completes the message only under packet_count == number_of_signal_packets',
+            f'an END packet delivers the message (line {sorted(set(cd.bad))}) although the number of packets received is only bounded, not equal to the number announced: a sequence with a duplicated or extra fragment is delivered instead of discarded', p.loc(fn))
     # completion resets
     oc = p.find('bumble.avdtp.MessageAssembler.on_message_complete')
     R.check(oc is not None and norm(oc.body[-1]) == 'self.reset()', rule, 'bumble.avdtp.MessageAssembler.on_message_complete', 'reset after delivery (also when the callback raises)', 'assembler is not reset after delivering a message', p.loc(oc) if oc else '')
@@ -464,6 +497,44 @@ def _first_real_stmt(fn):
             continue
         return s_
     return None
+
+
+def helper_codecs(ctx, rule='C19.sdp-codecs'):
+    """The hand-written field helpers of the SDP PDUs come in pairs (_parse_X / _serialize_X): both sides use the same struct
+    item types (width, signedness, byte order), whatever way the items are counted or looped over."""
+    import re as _re
+    R, p = ctx.r, ctx.p
+    m = p.modules.get('bumble.sdp')
+    if m is None:
+        R.bad(rule, 'bumble.sdp', 'anchor missing')
+        return
+    fns = {f.name: f for f in m.tree.body if isinstance(f, FUNC)}
+
+    def items(fn):
+        out = set()
+        for c in ast.walk(fn):
+            if isinstance(c, ast.Call) and (dotted(c.func) or '') in ('struct.pack', 'struct.unpack', 'struct.unpack_from', 'struct.pack_into', 'struct.calcsize') and c.args:
+                f = c.args[0]
+                txt = f.value if isinstance(f, ast.Constant) and isinstance(f.value, str) else ''.join(v.value for v in f.values if isinstance(v, ast.Constant)) if isinstance(f, ast.JoinedStr) else None
+                if txt is None:
+                    out.add('?')
+                    continue
+                order = txt[0] if txt[:1] in '<>!=@' else '@'
+                for ch in _re.findall(r'[a-zA-Z?]', txt):
+                    out.add(order + ch)
+        return out
+    n = 0
+    for name, fn in sorted(fns.items()):
+        if not name.startswith('_parse_'):
+            continue
+        twin = fns.get('_serialize_' + name[len('_parse_'):])
+        if twin is None:
+            continue
+        n += 1
+        a, b = items(fn), items(twin)
+        R.check(a == b and '?' not in a, rule, f'bumble.sdp.{name} / {twin.name}', f'both sides use {sorted(a)}',
+                f'the parser reads {sorted(a)} where the serialiser writes {sorted(b)}: width, signedness or byte order of a field differs between the two directions (e.g. handles >= 0x80000000 come back negative)', p.loc(fn))
+    R.check(n >= 2, rule, 'bumble.sdp | helper pairs', f'{n} _parse_/_serialize_ pairs', f'only {n} helper pairs found')
 
 
 def stream_fsm(ctx):
@@ -559,6 +630,7 @@ RULES = [
     ('C19.headers', headers),
     ('C19.neutral', neutral),
     ('C19.stream-fsm', stream_fsm),
+    ('C19.sdp-codecs', helper_codecs),
 ]
 
 VARIANTS = [
